@@ -27,11 +27,12 @@ func loGetPath(env string, defpath string) string {
 	return path
 }
 
-// packageTable returns the table of the package library. It is found through the registry's _LOADED
-// table, not through the global variable "package", which a script is free to use for something else
-// (the reference implementation keeps the table in the environment of the package functions).
+// packageTable returns the table of the package library. OpenPackage keeps it in the registry: neither
+// the global variable "package" nor package.loaded.package is consulted, a script is free to reuse the
+// one and to clear the other (the reference implementation keeps the table in the environment of the
+// package functions).
 func packageTable(L *LState) LValue {
-	return L.GetField(L.GetField(L.Get(RegistryIndex), "_LOADED"), LoadLibName)
+	return L.GetField(L.Get(RegistryIndex), "_PACKAGE")
 }
 
 func loFindFile(L *LState, name, pname string) (string, string) {
@@ -55,6 +56,7 @@ func loFindFile(L *LState, name, pname string) (string, string) {
 
 func OpenPackage(L *LState) int {
 	packagemod := L.RegisterModule(LoadLibName, loFuncs)
+	L.SetField(L.Get(RegistryIndex), "_PACKAGE", packagemod)
 
 	L.SetField(packagemod, "preload", L.NewTable())
 
